@@ -172,7 +172,7 @@ def mc(families, impl, mode, invariants, properties, liveness=False, timeout=300
 # per property: invariants/properties of Sched.tla, families, negative controls
 DAG_Q = ["pair", "chain3p", "fanin1", "diamondp", "pullchain2", "pulltwice", "chain3d", "diamondpd", "wsumstatic"]
 DAG_T = DAG_Q + ["pairL", "chain3t", "fanin2", "fanout", "fanoutshared", "diamondt", "pair3", "pairXL", "trigger"]
-CYC_Q = ["ring2", "pullring", "pullringtail", "ringbreak", "ring2tail", "ringfanin", "ringavg"]
+CYC_Q = ["ring2", "pullring", "pullringtail", "pullringtail0", "ringbreak", "ring2tail", "ringfanin", "ringavg"]
 CYC_T = CYC_Q + ["ring3", "ring4"]
 
 PLAN = {
